@@ -558,13 +558,13 @@ type RootObs struct {
 }
 
 type StoreObs struct {
-	Calls  int   `json:"calls"`  // ledger write calls so far
-	Regs   int   `json:"regs"`   // registers
-	Deltas int   `json:"deltas"` // entries in the write set
-	Stored []int `json:"stored"` // canonical ids of all slabs in the view
-	Reach  []int `json:"reach"`  // canonical ids of standalone slabs reached from the roots
-	Dsum   string `json:"dsum"`  // fingerprint of the identifiers in the write set
-	Stale  []int `json:"stale"`  // canonical ids of slabs held in the read cache and NOT in the write set whose encoding differs from their register
+	Calls  int    `json:"calls"`  // ledger write calls so far
+	Regs   int    `json:"regs"`   // registers
+	Deltas int    `json:"deltas"` // entries in the write set
+	Stored []int  `json:"stored"` // canonical ids of all slabs in the view
+	Reach  []int  `json:"reach"`  // canonical ids of standalone slabs reached from the roots
+	Dsum   string `json:"dsum"`   // fingerprint of the identifiers in the write set
+	Stale  []int  `json:"stale"`  // canonical ids of slabs held in the read cache and NOT in the write set whose encoding differs from their register
 }
 
 func (w *World) rootSlabOf(h *Handle) atree.Slab {
